@@ -11,6 +11,7 @@ import HtaVerif.Model.C01
 import HtaVerif.Model.C12
 import HtaVerif.Model.C17
 import HtaVerif.Model.C18
+import HtaVerif.Model.C11
 /-!
 `htadrv` — line protocol driver. One JSON request per input line, one JSON answer per
 output line. Imports only `Model/*` and `Spec/*` (core Lean), never a proof file.
@@ -259,6 +260,34 @@ def handle (j : Json) : Except String Json := do
     let fr : C18.Frame := { rows := rs, hasRank := ← getBool (← field j "has_rank"), decoded := ← getBool (← field j "decoded") }
     let out := C18.applyAll fs fr
     return Json.mkObj [("ids", Json.arr (out.rows.map fun r => Json.arr #[jInt r.rank, jInt r.idx]).toArray)]
+  | "c11.ops" =>
+    -- ops: ["add", [syms]] | ["encode", s] | ["decode", i] | ["table"]
+    let ops ← getArr (← field j "ops")
+    let mut t := C11.Tab.empty
+    let mut outs : Array Json := #[]
+    for o in ops do
+      let a ← getArr o
+      let k ← getStr a[0]!
+      if k == "add" then
+        let ss ← (← getArr a[1]!).toList.mapM getStr
+        t := t.addAll ss
+        outs := outs.push (jInt t.table.length)
+      else if k == "encode" then
+        outs := outs.push (match t.encode (← getStr a[1]!) with | some i => jInt i | none => Json.null)
+      else if k == "decode" then
+        outs := outs.push (match t.decode (← getInt a[1]!).toNat with | some s => Json.str s | none => Json.null)
+      else
+        outs := outs.push (Json.arr (t.table.map Json.str).toArray)
+    return Json.mkObj [("outs", Json.arr outs)]
+  | "c11.global" =>
+    let locals ← (← getArr (← field j "locals")).toList.mapM fun l => do
+      let ss ← (← getArr l).toList.mapM getStr
+      return C11.Tab.empty.addAll ss
+    let g := C11.globalOf locals
+    let maps := locals.map fun l =>
+      Json.arr ((List.range l.table.length).map fun i =>
+        match C11.reencode l g i with | some k => jInt k | none => Json.null).toArray
+    return Json.mkObj [("table", Json.arr (g.table.map Json.str).toArray), ("maps", Json.arr maps.toArray)]
   | _ => throw s!"unknown op {op}"
 
 partial def loop (hin hout : IO.FS.Stream) : IO Unit := do
